@@ -17,7 +17,9 @@ def _files(unit, rng, any_rpc=False):
         n_att = int(rng.integers(1, 6))
         att_len = int(rng.choice([16 + 120 * n_att, 16384, 16 + 120 * n_att + int(rng.integers(1, 300))]))
         pdate = [(1, 1), (12, 31), (2, 28), (int(rng.integers(1, 13)), int(rng.integers(1, 29)))][int(rng.integers(0, 4))]
-        data = synth.leader_file(platform_date=pdate, n_att=n_att, n_chan=int(rng.integers(1, 17)), mapproj=int(rng.integers(0, 2)),
+        secs = ["43200.5", "86399.999", "0.001", f"{rng.uniform(0, 86399):.6f}", f"{rng.uniform(0, 86399):.3f}",
+                f"{int(rng.integers(0, 86400))}.{int(rng.integers(0, 1000000)):06d}"][int(rng.integers(0, 6))]
+        data = synth.leader_file(seconds_of_day=secs, platform_date=pdate, n_att=n_att, n_chan=int(rng.integers(1, 17)), mapproj=int(rng.integers(0, 2)),
                                  fac_len=tuple(int(x) for x in rng.integers(66, 400, 4)), year=int(rng.integers(2014, 2050)),
                                  att_doy=int(rng.integers(1, 366)), att_ms=int(rng.integers(0, 86399000)), rng=rng, att_len=att_len)
 
